@@ -36,6 +36,11 @@ struct Script {
     /// an action between shutdown and arming flag re-raises the signal once: that second signal must be held back
     /// until the first delivery has returned (and then terminate)
     reraise_between: bool,
+    /// a temporary action is registered and removed right before the recipe is registered; after everything is registered it is
+    /// "removed" once more (documented as harmless: the id is stale)
+    stale_unregister: bool,
+    /// another thread spends its time inside deliveries of an unrelated signal while the script runs
+    busy_other: bool,
     steps: Vec<Step>,
 }
 
@@ -112,6 +117,26 @@ fn run_child(sc: &Script, fd: i32) -> i32 {
         }
     };
     let other = if sc.other_removed { Some(unsafe { signal_hook_registry::register(sc.sig, || ()) }.expect("other")) } else { None };
+    if sc.busy_other && sc.sig != libc::SIGWINCH {
+        unsafe {
+            signal_hook_registry::register(libc::SIGWINCH, || {
+                for _ in 0..3000 {
+                    std::hint::spin_loop();
+                }
+            })
+            .expect("busy");
+        }
+        std::thread::spawn(|| loop {
+            unsafe { libc::raise(libc::SIGWINCH) };
+        });
+    }
+    let stale = if sc.stale_unregister {
+        let id = unsafe { signal_hook_registry::register(sc.sig, || ()) }.expect("temporary");
+        signal_hook_registry::unregister(id);
+        Some(id)
+    } else {
+        None
+    };
     if sc.shutdown_first {
         reg_shutdown(cond.clone());
     }
@@ -142,6 +167,11 @@ fn run_child(sc: &Script, fd: i32) -> i32 {
     }
     if let Some(id) = other {
         signal_hook_registry::unregister(id);
+    }
+    if let Some(id) = stale {
+        if signal_hook_registry::unregister(id) {
+            fork::wr(fd, "BAD removing an id that had been removed before reported a removal\n");
+        }
     }
     for (i, st) in sc.steps.iter().enumerate() {
         fork::wr(fd, &format!("STEP {}\n", i));
@@ -227,7 +257,7 @@ pub fn main(args: &[String]) -> i32 {
             for bits in 0..(1u32 << len) {
                 let steps: Vec<Step> = (0..len).map(|i| if bits >> i & 1 == 1 { Step::Deliver } else { Step::Set(false) }).collect();
                 let sig = shutdown_sigs[((bits + len) as usize) % 3];
-                scripts.push(Script { sig, status: ((bits * 37 + len) % 256) as c_int, kind: 0, shutdown_first: order, arm_by_signal: true, initial: false, threads: bits % 2 == 1, other_removed: bits % 3 == 1, reraise_between: false, steps });
+                scripts.push(Script { sig, status: ((bits * 37 + len) % 256) as c_int, kind: 0, shutdown_first: order, arm_by_signal: true, initial: false, threads: bits % 2 == 1, other_removed: bits % 3 == 1, reraise_between: false, stale_unregister: bits % 5 == 2, busy_other: bits % 7 == 3, steps });
             }
         }
     }
@@ -252,6 +282,8 @@ pub fn main(args: &[String]) -> i32 {
             threads: rng.chance(1, 2),
             other_removed: rng.chance(1, 3),
             reraise_between: kind == 0 && rng.chance(1, 6),
+            stale_unregister: rng.chance(1, 4),
+            busy_other: rng.chance(1, 5),
             steps,
         });
     }
@@ -311,7 +343,7 @@ pub fn main(args: &[String]) -> i32 {
                 }
             }
         }
-        keys.insert(format!("{}:{}:{}:{}:{}:{}:{}:{:?}", sc.kind, sc.sig, sc.shutdown_first, sc.arm_by_signal, sc.threads, sc.other_removed, sc.reraise_between, want_end.map(|k| sc.steps[..=k].iter().filter(|s| matches!(s, Step::Deliver)).count())));
+        keys.insert(format!("{}:{}:{}:{}:{}:{}:{}:{}:{}:{:?}", sc.kind, sc.sig, sc.shutdown_first, sc.arm_by_signal, sc.threads, sc.other_removed, sc.reraise_between, sc.stale_unregister, sc.busy_other, want_end.map(|k| sc.steps[..=k].iter().filter(|s| matches!(s, Step::Deliver)).count())));
         if samples.len() < 6 && idx % 97 == 3 {
             samples.push(J::s(&format!("{} -> {:?} after step {:?} (model: ends at {:?})", label, res.end, last_step, want_end)));
         }
